@@ -103,6 +103,18 @@ func expandCond(v ssa.Value, truth bool, depth int) []Cond {
 	out := []Cond{{V: v, True: truth}}
 	// the outcome of a call to a function of the module: what holds on every way out of it that gives this outcome
 	out = append(out, resultFacts(v, truth, depth)...)
+	// a result kept in a variable: `var refusal error; switch { case a: refusal = ..; case b: refusal = .. }; if refusal
+	// != nil { return }` - if the merged value is nil, control came over an edge whose value can be nil; with a single
+	// such edge the facts of that predecessor hold (and the reverse for "not nil")
+	if x, neq, isNilCmp := NilCmp(v); isNilCmp && depth <= 8 {
+		if nphi, isPhi := x.(*ssa.Phi); isPhi {
+			if cands := nilCandidates(nphi, truth != neq, depth); len(cands) == 1 {
+				pred := nphi.Block().Preds[cands[0]]
+				out = append(out, condsAt(pred, depth+1)...)
+				out = append(out, edgeConds(pred, nphi.Block(), depth+1)...)
+			}
+		}
+	}
 	phi, ok := v.(*ssa.Phi)
 	if !ok || depth > 8 {
 		return out
@@ -144,7 +156,46 @@ func Alternatives(c Cond) [][]Cond {
 	return alternatives(c.V, c.True, 0)
 }
 
+// nilCandidates: the incoming edges of a merge of interface / pointer values over which the merged value can be nil
+// (wantNil) or can be something else (!wantNil).
+func nilCandidates(phi *ssa.Phi, wantNil bool, depth int) []int {
+	m := moduleOf(phi.Parent())
+	var out []int
+	for i, e := range phi.Edges {
+		if wantNil {
+			if isNilConst(e) {
+				out = append(out, i)
+				continue
+			}
+			if m != nil && m.provablyNonNil(e, phi.Block().Preds[i], depth+1) {
+				continue
+			}
+			out = append(out, i)
+		} else if !isNilConst(e) {
+			out = append(out, i)
+		}
+	}
+	return out
+}
+
 func alternatives(v ssa.Value, truth bool, depth int) [][]Cond {
+	if x, neq, isNilCmp := NilCmp(v); isNilCmp && depth <= 4 {
+		if nphi, isPhi := x.(*ssa.Phi); isPhi {
+			cands := nilCandidates(nphi, truth != neq, depth)
+			if len(cands) < 2 {
+				return nil
+			}
+			var out [][]Cond
+			for _, i := range cands {
+				pred := nphi.Block().Preds[i]
+				var alt []Cond
+				alt = append(alt, condsAt(pred, depth+1)...)
+				alt = append(alt, edgeConds(pred, nphi.Block(), depth+1)...)
+				out = append(out, alt)
+			}
+			return out
+		}
+	}
 	phi, ok := v.(*ssa.Phi)
 	if !ok || depth > 4 {
 		return nil
@@ -433,9 +484,75 @@ func ReturnsOf(fn *ssa.Function) []Ret {
 	return out
 }
 
+// splitBehindTest: `if result != nil { return result }` after the result was merged from several assignments: the return
+// sits behind a block that does nothing but merge and test the merged value. The ways out are the incoming edges of
+// that block over which the test can turn out the way that leads to the return. Nil if the way out has no such shape.
+func splitBehindTest(r Ret, depth int) []Ret {
+	t := r.from
+	if len(t.Preds) != 1 {
+		return nil
+	}
+	p := t.Preds[0]
+	if p == t || !onlyMergesAndTests(p) || !onlyReturns(t, r) {
+		return nil
+	}
+	hasPhi := false
+	for _, v := range r.vals {
+		if phi, ok := v.(*ssa.Phi); ok && phi.Block() == p {
+			hasPhi = true
+		}
+	}
+	ifi, _ := p.Instrs[len(p.Instrs)-1].(*ssa.If)
+	if !hasPhi || ifi == nil || len(p.Preds) < 2 || len(p.Preds) > 16 {
+		return nil
+	}
+	towards := p.Succs[0] == t
+	var out []Ret
+	for i, q := range p.Preds {
+		if q == p {
+			return nil
+		}
+		// the edge can lead here only if the test can have this outcome on it - and the way out is split only if, on
+		// every edge, the value assigned decides the test by itself (a nil constant, or a value that is certainly not
+		// nil): what the test says about the merged value is then known of each value, and nothing is lost by looking
+		// at the values instead of the merge
+		x, neq, isNil := NilCmp(ifi.Cond)
+		phi, isPhi := x.(*ssa.Phi)
+		if !isNil || !isPhi || phi.Block() != p {
+			return nil
+		}
+		edgeNil := isNilConst(phi.Edges[i])
+		edgeNonNil := false
+		if m := moduleOf(phi.Parent()); !edgeNil && m != nil {
+			edgeNonNil = m.provablyNonNil(phi.Edges[i], q, 0)
+		}
+		if !edgeNil && !edgeNonNil {
+			return nil
+		}
+		wantNil := towards != neq // the branch towards t is taken when the merged value is nil
+		if edgeNil != wantNil {
+			continue
+		}
+		vals := make([]ssa.Value, len(r.vals))
+		for j, v := range r.vals {
+			vals[j] = v
+			if phi, ok := v.(*ssa.Phi); ok && phi.Block() == p {
+				vals[j] = phi.Edges[i]
+			}
+		}
+		out = append(out, splitRet(Ret{Return: r.Return, vals: vals, from: q, path: append([]*ssa.BasicBlock{p, t}, r.path...)}, depth+1)...)
+	}
+	return out
+}
+
 // splitRet resolves the results that are phis of the block the way out comes from into one way out per incoming edge.
 func splitRet(r Ret, depth int) []Ret {
 	b := r.from
+	if depth <= 4 && b == r.Return.Block() {
+		if out := splitBehindTest(r, depth); len(out) > 0 {
+			return out
+		}
+	}
 	if depth > 4 || len(b.Preds) < 2 || len(b.Preds) > 16 {
 		return []Ret{r}
 	}
@@ -474,6 +591,54 @@ func splitRet(r Ret, depth int) []Ret {
 		out = append(out, splitRet(Ret{Return: r.Return, vals: vals, from: p, path: append([]*ssa.BasicBlock{b}, r.path...)}, depth+1)...)
 	}
 	return out
+}
+
+// onlyMergesAndTests: the block consists of phis, comparisons of them and the branch on one.
+func onlyMergesAndTests(b *ssa.BasicBlock) bool {
+	if len(b.Instrs) == 0 {
+		return false
+	}
+	for i, in := range b.Instrs {
+		switch x := in.(type) {
+		case *ssa.Phi:
+		case *ssa.BinOp:
+			if x.Op != token.EQL && x.Op != token.NEQ {
+				return false
+			}
+		case *ssa.If:
+			if i != len(b.Instrs)-1 {
+				return false
+			}
+		default:
+			return false
+		}
+	}
+	_, isIf := b.Instrs[len(b.Instrs)-1].(*ssa.If)
+	return isIf
+}
+
+// onlyReturns: the block of the way out does nothing but return (r.from is the block of the Return, or passes on to it).
+func onlyReturns(b *ssa.BasicBlock, r Ret) bool {
+	if b != r.Return.Block() {
+		return false
+	}
+	for _, in := range b.Instrs {
+		switch x := in.(type) {
+		case *ssa.Return, *ssa.DebugRef, *ssa.RunDefers:
+		case *ssa.Store:
+			// the spill of a result for the deferred calls
+			if _, isLocal := x.Addr.(*ssa.Alloc); !isLocal {
+				return false
+			}
+		case *ssa.UnOp:
+			if _, isLocal := x.X.(*ssa.Alloc); !isLocal || x.Op != token.MUL {
+				return false
+			}
+		default:
+			return false
+		}
+	}
+	return true
 }
 
 // ErrorResultIndex returns the index of the last result if it is of type error, else -1.
